@@ -5,6 +5,7 @@ CONSTANTS
   EarlyClose = FALSE
   FlushFirst = FALSE
   Lapse = TRUE
+  ExpiryAware = FALSE
   Emit = FALSE
 INVARIANTS Safety
 VIEW view
